@@ -15,7 +15,7 @@ CHECKS = {
         "technique": "static table comparison: ast-extracted grammar -> fresh LALR generation vs parsetab.py read as data; call-site option lint",
         "text": "Exhaustive for the tree analysed: every action, goto and production cell of the shipped table file is compared with a fresh generation from the grammar as declared in the source, the cache state is classified from the source (valid / stale / other version / missing), and the yacc.yacc()/lex.lex() call sites are shown not to pass an option that would keep a non-matching table. This is the whole property except run-time equality of results, which follows from table identity plus PLY determinism.",
         "design_ref": "DESIGN.md section 4 C20, section 2 E2",
-        "note": "Trusted: PLY 3.11's generator as the definition of 'tables derived from the grammar', its signature / version test and regeneration path as read from ply/yacc.py; CPython ast. The thorough tier re-derives the LALR automaton independently.",
+        "note": "Trusted: PLY 3.11's generator as the definition of 'tables derived from the grammar', its signature / version test and regeneration path as read from ply/yacc.py; CPython ast. Both tiers also re-derive the LALR(1) automaton independently (LR(0) kernels + look-ahead propagation) and compare it cell by cell with PLY's generation.",
     },
 }
 
